@@ -4,17 +4,17 @@ CONSTANTS
   HsKinds = {"valid"}
   TgtKinds = {"ok"}
   MaxC = 3
-  MaxT = 3
+  MaxT = 2
   MaxTok = 7
-  AllowBad = FALSE
-  AllowSplit = TRUE
-  AllowRst = FALSE
-  AllowTClose = FALSE
-  AllowCRst = FALSE
+  AllowBad = TRUE
+  AllowSplit = FALSE
+  AllowRst = TRUE
+  AllowTClose = TRUE
+  AllowCRst = TRUE
   Planned = TRUE
   Timeout = 2
   MaxNow = 0
-  DrainMode = "inner"
+  DrainMode = "raw"
   Strict = TRUE
   WithServe = FALSE
   Hist = TRUE
